@@ -394,6 +394,13 @@ func ParseRendered(text string) (f *File, ok bool) {
 	if back, _ := f.Render(); back != text {
 		return nil, false
 	}
+	for _, r := range f.Rules {
+		// a textual merge can hang one rule's fields onto another (lines appended at the end of both versions):
+		// a recording rule with annotations or `for` is not a rule the generator ever writes, and not a valid one
+		if r.Kind == "record" && (len(r.Annotations) > 0 || r.For != "") || r.Expr == "" {
+			return nil, false
+		}
+	}
 	return f, true
 }
 
